@@ -258,6 +258,13 @@ pub fn random_tree(r: &mut Rng) -> Vec<Sub> {
     root.cols = 4 + r.below(3);
     root.dlat = 1.0;
     root.dlon = 1.0;
+    // grids reaching the antimeridian: the east border on 180 E exactly, or beyond it with longitudes counted on
+    match r.below(12) {
+        0 => root.lon_w = 180.0 - (root.cols - 1) as f64,
+        1 => root.lon_w = 177.0,
+        2 => root.lon_w = -180.0,
+        _ => {}
+    }
     root.lat_n = root.lat_s + (root.rows - 1) as f64;
     root.lon_e = root.lon_w + (root.cols - 1) as f64;
     root.values = (0..root.rows * root.cols * 2).map(|_| (r.range(-2000, 2000) as f32) / 16.0).collect();
